@@ -9,7 +9,7 @@ PROPS = {
                        "necessary conditions of C13: no false verdict is dropped between do_validate/do_compile/visit_ucg_files "
                        "and the exit status (R57), the assertion collector shared through the Environment is re-initialised "
                        "per file (R58), every path through the assert hook records a result with the right polarity (R59), and "
-                       "verdict polarity / exit(1) wiring (R60). Not decided: the printed text. Added later: R57 Err edges, R58e (build evaluates the file). Third session: R57, R60 and the collector half of R59 are decided by three-valued abstract interpretation of the MIR (ucgverif/absint.py): one result is forced negative on one visit and the caller's outcomes on every path that saw it must be negative (sticky), verdict-carrying wrappers and closures are discovered, iterator adaptors and `?` are modelled, an unmodelled sink of the value gives `cannot decide`; R59's hook half runs on the flat view (private helpers spliced in). R57 also: inside the collector's statement loop every path on which an assertion was negative passes the bookkeeping that records it (evaluated, visited-after-fired).",
+                       "verdict polarity / exit(1) wiring (R60). Not decided: the printed text. Added later: R57 Err edges, R58e (build evaluates the file). Third session: R57, R60 and the collector half of R59 are decided by three-valued abstract interpretation of the MIR (ucgverif/absint.py): one result is forced negative on one visit and the caller's outcomes on every path that saw it must be negative (sticky), verdict-carrying wrappers and closures are discovered, iterator adaptors and `?` are modelled, an unmodelled sink of the value gives `cannot decide`; R59's hook half runs on the flat view (private helpers spliced in). R57 also: inside the collector's statement loop every path on which an assertion was negative passes the bookkeeping that records it (evaluated, visited-after-fired). R60s (syntax tree of main.rs): wherever a PASS text and a FAIL text are chosen between, the condition is the validation of that file itself, not an accumulated flag.",
         "assumptions": ["rustc MIR construction and callee resolution (Instance::try_resolve)",
                         "panicking paths are not normal exits (covered by C04)"],
     },
@@ -32,7 +32,7 @@ PROPS = {
                        "(FileBuilder::build, Builtins::import) to the file's evaluation; the memo discipline of the op, value "
                        "and shape caches is checked on the CFG (R48m: insert only on the vacant/miss edge after success, never "
                        "shrunk); R57 (verdict propagation) covers `build -r`. Not decided: byte equality of artifacts; "
-                       "positions stored inside cached import shapes. Added later: R48k (the three out-lock functions and the import hook's call sites agree on the key). R26l (shared with C09): inside the link loop only 'already linked in this walk' may skip loading a link - no question put to a cache that all files of the invocation share.",
+                       "positions stored inside cached import shapes. Added later: R48k (the three out-lock functions and the import hook's call sites agree on the key). R26l (shared with C09): inside the link loop only 'already linked in this walk' may skip loading a link - no question put to a cache that all files of the invocation share. R68 (shared with C09): the checker of an imported file works in that file's own directory, so the shape cached for it does not depend on which file imported it first.",
         "assumptions": ["state that outlives a file lives in Environment (statics: only the reserved-word LazyLock, immutable)",
                         "the repl is outside the property's quantifier"],
     },
@@ -54,7 +54,7 @@ PROPS = {
                        "SafeIndex true, the safe edge yields NULL and the strict edge an error (R45); std::env::vars is read once "
                        "in main and flows only into the Environment, env_vars has no later writer, the env tuple is built from it "
                        "alone and a local symbol named env wins (R46); `env` aborts both binding forms in the parser (R47). "
-                       "Not decided: the values of variables as strings (OS encoding). Added later: R45s (strictness handed down unchanged to every function that stores or forwards a strict flag). R46 also: the closure that turns std::env::vars() into the env tuple neither filters nor rewrites the pairs.",
+                       "Not decided: the values of variables as strings (OS encoding). Added later: R45s (strictness handed down unchanged to every function that stores or forwards a strict flag). R46 also: the closure that turns std::env::vars() into the env tuple neither filters nor rewrites the pairs. R45s also: every struct literal with a `strict` field inside the evaluator fills it from a strict field or parameter.",
         "assumptions": ["Value::type_name returns a &'static str that names the kind only (checked: body has only constant arms)"],
     },
     "C10": {
@@ -75,7 +75,7 @@ PROPS = {
                        "and of the checker's resolve_import on the CFG (normalise, cache, cycle test, in-progress mark before run, "
                        "cache after run). R27: std::env::current_dir unreachable from the import/include/translate/check paths "
                        "(call graph). R68: rewriter arms and provenance of its base directory. Not decided: filesystem behaviour, "
-                       "equality of values across builds; format template expressions are parsed after the rewrite (noted). Added later: R25p, R26c normalised keys and child directory, R26l (link_ops), R26v (every nested VM run gets the import stack), R27n (normalize is total), R68 helper-aware with import-only std exemption and late-parsed format expressions. R26l also: inside the link loop only 'already linked in this walk' may skip loading a link.",
+                       "equality of values across builds; format template expressions are parsed after the rewrite (noted). Added later: R25p, R26c normalised keys and child directory, R26l (link_ops), R26v (every nested VM run gets the import stack), R27n (normalize is total), R68 helper-aware with import-only std exemption and late-parsed format expressions. R26l also: inside the link loop only 'already linked in this walk' may skip loading a link. R68 also: the checker of an imported file works in that file's own directory (base:child-checker).",
         "assumptions": ["the parser never stores an import inside CallDef.funcref / CopyDef.selector (Value from a selector)"],
     },
     "C08": {
@@ -96,7 +96,7 @@ PROPS = {
                        "variants the format cannot represent, non-finite float -> Err in JSON. R64: every loop iteration adds the "
                        "element or fails the conversion; append-only forward iteration. R12: `---` before every yamlmulti document. "
                        "R70: no Val payload hand-formatted into the output. Not decided: that serde_json / serde_yaml / toml emit "
-                       "valid text that an independent decoder reads back. Added later: R12b (the YAML text is exactly the serializer's document), R64 on iterator pipelines, R64v (value lowering keeps every field and element), R49t (artifact opened truncating). R11 also: every scalar kind of the lowered value is written by the converter arm of the same kind.",
+                       "valid text that an independent decoder reads back. Added later: R12b (the YAML text is exactly the serializer's document), R64 on iterator pipelines, R64v (value lowering keeps every field and element), R49t (artifact opened truncating). R11 also: every scalar kind of the lowered value is written by the converter arm of the same kind. R12c: the string the convert expression pushes is the decoded converter buffer, through conversions only (no trim / replace).",
         "assumptions": ["serde_json, serde_yaml and toml serialise their own value types correctly"],
     },
     "C12": {
@@ -151,7 +151,7 @@ PROPS = {
                        "Shape variants have a path that does not return TypeErr), by per-variant path analysis; required: VM set "
                        "(mapped kind -> shape) is a subset of the checker set. R21a: map/filter/reduce targets; R21b: the forms the "
                        "translator lowers after `.` on a tuple / resolved import; R21c: copy bases and `not`. Not decided: "
-                       "completeness of the checker in general (value-level rules of narrow, e.g. `[1] + [\"a\"]`). Added later: R21b for partly known left shapes, R21h (F33 known), R21p (with_pos preserves variant and kind of knowledge), R25p (visit/leave pairing). Third session: R21a/R21c also require partly known shapes (Hole, Narrowed[Any], Narrowed[candidates]) to pass every dispatch (F45 fixed); R21s parameters are layered over the enclosing scope in FuncDef::derive_shape (F42 fixed); R21d every result-carrying sub-expression (select branches and default, func body, module out) flows into the derived shape (F44 fixed); R21n a callee's open parameter shapes are not narrowed in the caller's table (F43 known). R21q: with one candidate's comparison forced to a fitting shape and the others unknown, narrow_cached builds no TypeErr (evaluated; one fitting candidate is enough). R21m: merge_in_shape drops an incoming select candidate only when Shape::equivalent (one-directional on tuples) holds both ways (F46).",
+                       "completeness of the checker in general (value-level rules of narrow, e.g. `[1] + [\"a\"]`). Added later: R21b for partly known left shapes, R21h (F33 known), R21p (with_pos preserves variant and kind of knowledge), R25p (visit/leave pairing). Third session: R21a/R21c also require partly known shapes (Hole, Narrowed[Any], Narrowed[candidates]) to pass every dispatch (F45 fixed); R21s parameters are layered over the enclosing scope in FuncDef::derive_shape (F42 fixed); R21d every result-carrying sub-expression (select branches and default, func body, module out) flows into the derived shape (F44 fixed); R21n a callee's open parameter shapes are not narrowed in the caller's table (F43 known). R21q: with one candidate's comparison forced to a fitting shape and the others unknown, narrow_cached builds no TypeErr (evaluated; one fitting candidate is enough). R21m: merge_in_shape drops an incoming select candidate only when Shape::equivalent (one-directional on tuples) holds both ways (F46). R21e: with is_empty() answering true, an empty candidate list on either side of narrow never reaches the candidate comparison (evaluated).",
         "assumptions": ["runtime kind -> Shape variant map of impl DeriveShape for Value (List->List, Tuple->Tuple, Str->Str)"],
     },
     "C17": {
@@ -162,7 +162,7 @@ PROPS = {
                        "caller's position on the Err edge. R39: provenance of the position of every Error::new in vm.rs/runtime.rs "
                        "from an operand / parameter / op pointer; inventory of Position::new users. R92: line/column/offset wiring "
                        "from the input iterator through parser errors to the printed diagnostic. Not decided: that the reported line "
-                       "lies inside the right statement for a given input; errors inside imported files. Added later: R38 frame-position and result-position provenance (also through a forwarding helper), R39c (checker mismatches are anchored where the operands meet). R39s: every VM::push in vm.rs / runtime.rs takes its position from a popped entry, the handler's pos parameter or the op pointer, never out of the position list stored inside a value (definition chain, stops at pop).",
+                       "lies inside the right statement for a given input; errors inside imported files. Added later: R38 frame-position and result-position provenance (also through a forwarding helper), R39c (checker mismatches are anchored where the operands meet). R39s: every VM::push in vm.rs / runtime.rs takes its position from a popped entry, the handler's pos parameter or the op pointer, never out of the position list stored inside a value (definition chain, stops at pop). R38 also: the result a functional operator (map / filter / reduce) pushes does not carry a position that came back from a callback.",
         "assumptions": ["abortable_parser's line()/column() count from the start of the input"],
     },
     "C01": {
@@ -175,7 +175,7 @@ PROPS = {
                        "evaluation of every jump patch (idx = len_a - 1, offset = len_b - len_a) plus jump arithmetic and short-circuit "
                        "polarity in the VM; R4 exhaustive translation; R84 range bounds; R85 the `is` type-name table against the "
                        "reference. Not decided: values computed by arbitrary programs (that needs an independent evaluator, a dynamic "
-                       "oracle). Added later: R3s (PushSelf/PopSelf bracket, unconditional push/pop), R3t (the translator compiles every child of every node on every path), R31 of C10 (scope snapshots).",
+                       "oracle). Added later: R3s (PushSelf/PopSelf bracket, unconditional push/pop), R3t (the translator compiles every child of every node on every path), R31 of C10 (scope snapshots). R3s also: the child VM that evaluates the @{..} parts of a format string is built with the parent's self stack.",
         "assumptions": ["the semantic table (left - right, text ~ pattern, item in container, container . key) is the reference's"],
         "technique": "static analysis: provenance composition translator/VM over MIR, linear forms for jump offsets, table agreement",
     },
@@ -206,7 +206,7 @@ PROPS = {
                        "names are single barewords for the tokenizer. R79/R79t: pending comment groups are printed once, in key order, "
                        "flushed at the end, and a comment line's layout is decided on the text printed. R8: operator spellings. Not "
                        "decided: comment placement relative to nodes, blank-line policy, idempotence of layout for comments inside "
-                       "expressions, numeric value of floats after Display. Added later: R15p (float literals are finite), R79m (a fresh comment map per file).",
+                       "expressions, numeric value of floats after Display. Added later: R15p (float literals are finite), R79m (a fresh comment map per file). R14w: the file `ucg fmt -w` rewrites is opened truncating (File::create or OpenOptions with truncate(true)).",
         "assumptions": ["sentence forms are bounded: collections up to 3 elements on both sides (the rules have no counting behaviour)",
                         "node shapes the parser cannot produce are outside the property (one table entry, re-verified against the grammar)",
                         "Display for f64 prints digits the tokenizer reads back to the same value (std property, not checked)"],
